@@ -29,7 +29,7 @@ ARENA_FAMILIES = {
         fns=["memcpy_s", "memmove_s", "memcpy16_s", "memmove16_s", "memcpy32_s", "memmove32_s", "wmemcpy_s", "wmemmove_s", "memccpy_s"],
         quick=dict(N=6, K=3, BosMode=0), thorough=dict(N=9, K=5, BosMode=0), props={"C01", "C02", "C04", "C05", "C06", "C07"}),
     "memcopy_bos": dict(
-        fns=["memcpy_s", "memmove_s", "memcpy16_s", "memmove16_s", "memcpy32_s", "memmove32_s", "wmemcpy_s", "wmemmove_s"],
+        fns=["memcpy_s", "memmove_s", "memcpy16_s", "memmove16_s", "memcpy32_s", "memmove32_s", "wmemcpy_s", "wmemmove_s", "memccpy_s"],
         quick=dict(N=5, K=2, BosMode=1), thorough=dict(N=6, K=3, BosMode=1), props={"C01", "C02", "C04", "C05", "C06", "C07"}),
     "fill": dict(
         fns=["memset_s", "memset16_s", "memset32_s", "memzero_s", "memzero16_s", "memzero32_s",
